@@ -35,6 +35,9 @@ const BLOCK_PREFIX: &str = "chain:block:";
 /// Key for chain metadata.
 const CHAIN_META_KEY: &str = "chain:meta";
 
+/// Proposer recorded in the (replica-independent) genesis block.
+const GENESIS_PROPOSER: &str = "genesis";
+
 /// The tensor chain - an append-only linked structure of blocks.
 pub struct Chain {
     /// Graph engine for block linking.
@@ -149,8 +152,11 @@ impl Chain {
             return Ok(());
         }
 
-        // Create genesis block
-        let genesis = Block::genesis(self.node_id.clone());
+        // Create genesis block. It must be identical on every replica (block 1 names
+        // its hash, and it is part of the hashed state), so it carries neither the
+        // local node id nor the local clock.
+        let mut genesis = Block::genesis(GENESIS_PROPOSER.to_string());
+        genesis.header.timestamp = 0;
         self.store_block(&genesis)?;
 
         *self.tip_hash.write() = genesis.hash();
